@@ -1207,6 +1207,7 @@ Library read_gds(const char* filename, double unit, double tolerance, const Set<
                 path = NULL;
                 reference = NULL;
                 label = NULL;
+                width = 0;
                 break;
             case GdsiiRecord::SNAME:
                 if (reference) {
